@@ -96,6 +96,33 @@ def lean_obligations(prop, theorems, extra_build=()):
                     res["broken"].append(f"{t} uses axioms {sorted(axs - ALLOWED_AXIOMS)}")
                 else:
                     res["discharged"] += 1
+        # thorough tier: the toolchain's independent re-checker replays every declaration of the compiled proofs
+        # (cached per set of .olean files, so that it runs once per build and not once per property)
+        if p.returncode == 0 and os.environ.get("VERIF_TIER") == "thorough":
+            try:
+                import hashlib
+                libdir = os.path.join(LEAN_DIR, ".lake", "build", "lib", "lean")
+                h = hashlib.sha256()
+                for root, _, files in sorted(os.walk(libdir)):
+                    for fn in sorted(files):
+                        if fn.endswith(".olean"):
+                            st = os.stat(os.path.join(root, fn))
+                            h.update(f"{root}/{fn}:{st.st_size}:{int(st.st_mtime)}".encode())
+                stamp = os.path.join(LEAN_DIR, ".lake", f"leanchecker_{h.hexdigest()[:16]}.ok")
+                if os.path.exists(stamp):
+                    res["leanchecker"] = "ok (cached for this build)"
+                else:
+                    q = subprocess.run(["lake", "env", "leanchecker", "Proofs"], cwd=LEAN_DIR, stdout=subprocess.PIPE,
+                                       stderr=subprocess.STDOUT, timeout=3600)
+                    if q.returncode == 0:
+                        open(stamp, "w").write("ok")
+                        res["leanchecker"] = "ok"
+                    else:
+                        res["ok"] = False
+                        res["leanchecker"] = "FAILED"
+                        res["broken"].append("leanchecker rejected the compiled proofs: " + q.stdout.decode(errors="replace")[-300:])
+            except Exception as e:  # noqa
+                res["leanchecker"] = f"not run: {e}"
     finally:
         fcntl.flock(lock, fcntl.LOCK_UN)
         lock.close()
@@ -191,7 +218,7 @@ class Report:
         cov.setdefault("checker_cmd", "cd lean && lake build Bardic Proofs driver && lake env lean .lake/audit_%s.lean  (#print axioms on every property theorem)" % self.prop)
         cov.setdefault("trusted_base", TRUSTED_BASE)
         cov.setdefault("samples", self.samples[:3] or [{"note": "no generated cases in this run"}])
-        cov["lean"] = {"ok": lean["ok"], "broken": lean["broken"], "axioms": lean.get("axioms", {}), "wall_s": lean.get("wall_s")}
+        cov["lean"] = {"ok": lean["ok"], "broken": lean["broken"], "axioms": lean.get("axioms", {}), "wall_s": lean.get("wall_s"), "leanchecker": lean.get("leanchecker", "thorough tier only")}
         cov["known_finding_hits"] = self.known_hits
         cov["disagreements"] = len(self.disagreements)
         cov["notes"] = self.notes
